@@ -471,7 +471,9 @@ def gen_datetime(rng, year2, wild=False):
     if wild and rng.random() < 0.5:
         y = rng.choice([1, 9, 10, 99, 100, 999, 1964, 2065, 5000])
     elif year2:
-        y = rng.choice(YEARS2) if rng.random() < 0.7 else rng.randint(1965, 2064)
+        # the century flips exactly at 65: 1965/1966 | 1999/2000 | 2064 with high probability
+        y = rng.choice([1965, 1965, 1966, 1999, 2000, 2064, 2064]) if rng.random() < 0.55 else \
+            rng.choice(YEARS2) if rng.random() < 0.5 else rng.randint(1965, 2064)
     else:
         y = rng.choice(YEARS) if rng.random() < 0.6 else rng.randint(1000, 9999)
     kind = rng.choice(["jan1", "dec31", "feb28", "feb29", "mar1", "monthend", "monthstart", "random", "random"])
@@ -1130,6 +1132,189 @@ def replay_exh(ck, c):
         ck.violation("start-mismatch", f"get_info(get_filename({day}, {nxt})) = {info.times}", c)
 
 
+
+# ------------------------------------------------------------------ boundary sweep of two-digit years (every tier)
+def boundary_year2(ck, use_model=True):
+    """first / last day and leap day of the years around the threshold through year2 templates (start AND end)"""
+    cases = []
+    L, T, E = (lambda s: ["L", s]), (lambda f: ["T", f]), (lambda f: ["E", f])
+    tpls = [[L(BASE + "b"), T("year2"), T("doy"), L("-"), E("year2"), E("doy"), L(".nc")],
+            [L(BASE), T("year2"), L("/"), T("month"), T("day"), L("_"), E("year2"), E("month"), E("day"), L(".dat")]]
+    for y in (1965, 1966, 1999, 2000, 2063, 2064):
+        for (m, d) in ((1, 1), (2, 28), (12, 31)):
+            s = dt.datetime(y, m, d)
+            for e in (s, min(s + dt.timedelta(days=1), dt.datetime(2064, 12, 31)), dt.datetime(2064, 12, 31)):
+                for toks in tpls:
+                    cases.append({"toks": toks, "env": {}, "env_as_list": False, "s": us(s), "e": us(e), "fill": {},
+                                  "mode": "f", "tc": None, "handler": None, "names": [], "stream": "year2-boundary",
+                                  "unambiguous": True})
+    run_batch(ck, cases, use_model)
+
+
+# ------------------------------------------------------------------ oracle-only stream: user regexes outside the model's fragment
+def _rx_pieces(rng):
+    """(regex source, sampler) pairs; samplers only produce letters, digits, '-' and '_' (never a special character)"""
+    up, lo, dg = "ABCDEFGHXYZ", "abcdefgxyz", "0123456789"
+    word = lambda k=3: "".join(rng.choice(lo) for _ in range(rng.randint(1, k)))
+    alts = [rng.choice(["NOAA", "Metop", "a", "bc", "v", "V", "sat", "x1"]) for _ in range(rng.randint(2, 3))]
+    alts = list(dict.fromkeys(alts))
+    return [
+        ("(?:" + "|".join(alts) + ")", lambda: rng.choice(alts)),
+        (r"-\w", lambda: "-" + rng.choice(up + lo + dg)),
+        (r"\d+", lambda: "".join(rng.choice(dg) for _ in range(rng.randint(1, 3)))),
+        (r"[a-z]", lambda: rng.choice(lo)),
+        (r"[A-Z]{2}", lambda: rng.choice(up) + rng.choice(up)),
+        (r"(?:_x)?", lambda: rng.choice(["", "_x"])),
+        (r"(?:v|V)\d", lambda: rng.choice("vV") + rng.choice(dg)),
+        (r"(?:[a-c]+|Z)", lambda: rng.choice(["Z", "".join(rng.choice("abc") for _ in range(rng.randint(1, 3)))])),
+        (r"[a-z]+(?:-[0-9]{2})?", lambda: word() + rng.choice(["", "-" + rng.choice(dg) + rng.choice(dg)])),
+        ("_", lambda: "_"),
+    ]
+
+
+def gen_outside_regex(rng):
+    pieces = _rx_pieces(rng)
+    k = rng.randint(1, 3)
+    chosen = [rng.choice(pieces) for _ in range(k)]
+    if rng.random() < 0.6:                       # a group that is NOT the end of the regex
+        chosen = [pieces[0]] + chosen[:2]
+    return "".join(p[0] for p in chosen), "".join(p[1]() for p in chosen)
+
+
+def own_regex(toks, env):
+    """independent construction of the pattern a template denotes: literal text escaped, every placeholder a named
+    group at its first occurrence and the same regex, non-capturing, afterwards"""
+    import re
+    out, seen = ["^"], set()
+    for t in toks:
+        if t[0] == "L":
+            out.append(re.escape(t[1]))
+            continue
+        name = t[1] if t[0] in "TU" else "end_" + t[1]
+        rx = r"\d{%d}" % WIDTH[t[1]] if t[0] in "TE" else env[t[1]]
+        out.append(("(?:%s)" % rx) if name in seen else ("(?P<%s>%s)" % (name, rx)))
+        seen.add(name)
+    return "".join(out) + r"\Z"
+
+
+def regex_outside_stream(ck, n):
+    """ORACLE ONLY (no model): custom user regexes with groups / alternations / classes / quantifiers, the placeholder
+    occurring 1..3 times; the property's own sentence is required of the real code."""
+    import re
+    from typhon.files import FileSet
+    rng = ck.rng
+    L, T, E, U = (lambda s: ["L", s]), (lambda f: ["T", f]), (lambda f: ["E", f]), (lambda u: ["U", u])
+    for _ in range(n):
+        nuser = rng.choice([1, 1, 2])
+        env, fill = {}, {}
+        for u in rng.sample(["sat", "orbit", "ver"], nuser):
+            env[u], fill[u] = gen_outside_regex(rng)
+        y2 = rng.random() < 0.3
+        date = ([T("year2")] if y2 else [T("year")]) + rng.choice([[T("month"), T("day")], [T("doy")]])
+        ntime = rng.choice([0, 2, 3])
+        start = date + [T(k) for k in TIME_KINDS[:ntime]]
+        endk = rng.choice(["none", "full", "subday"]) if ntime else rng.choice(["none", "full"])
+        end = [] if endk == "none" else [E(t[1]) for t in start] if endk == "full" else [E(k) for k in TIME_KINDS[:ntime]]
+        items = [[t] for t in start] + ([[L("-")] + [[x] for x in end][0]] + [[x] for x in end][1:] if end else [])
+        # user placeholders: each 1..3 times, always between '%'-free literal separators that cannot occur in a fill
+        seps = ["/", "=", "+", ".", "~", ","]
+        toks = [L(BASE)]
+        occ = [u for u in env for _ in range(rng.randint(1, 3))]
+        rng.shuffle(occ)
+        slots = sorted(rng.sample(range(len(items) + 1), min(len(items) + 1, len(occ)))) if occ else []
+        occ = occ[:len(slots)]
+        for i, grp in enumerate(items + [[]]):
+            while slots and slots[0] == i:
+                slots.pop(0)
+                u = occ.pop(0)
+                toks += [L(rng.choice(["=", "~", ","])), U(u), L(rng.choice(["=", "~", ","]))]
+            toks += grp
+            if grp and rng.random() < 0.3:
+                toks.append(L(rng.choice(["_", ".", "/d", "x"])))
+        toks.append(L(rng.choice([".nc", ".dat", ".h5"])))
+        merged = []
+        for t in toks:
+            if t[0] == "L" and merged and merged[-1][0] == "L":
+                merged[-1] = ["L", merged[-1][1] + t[1]]
+            else:
+                merged.append(list(t))
+        toks = merged
+        path = tpl_str(toks)
+        if any(c in ("", ".", "..") for c in path.split("/")[1:]) or "+" in path:
+            continue
+        S = {t[1] for t in toks if t[0] == "T"}
+        Eset = {t[1] for t in toks if t[0] == "E"}
+        s = trunc(gen_datetime(rng, y2), S)
+        delta = rng.choice([0, 60 * 10**6, 3600 * 10**6, DAY - 60 * 10**6, DAY, 40 * DAY]) if endk != "subday" else \
+            rng.choice([0, 60 * 10**6, 3600 * 10**6, DAY - 60 * 10**6])
+        try:
+            e = s + dt.timedelta(microseconds=delta)
+        except OverflowError:
+            e = s
+        e = trunc(e, Eset | (S if endk == "subday" else set())) if Eset else e
+        if e < s or (y2 and not 1965 <= e.year <= 2064):
+            e = s
+        case = {"op": "regex-outside", "toks": toks, "env": env, "fill": fill, "s": us(s), "e": us(e)}
+        regex_outside_case(ck, case)
+
+
+def regex_outside_case(ck, case):
+    import re
+    from typhon.files import FileSet
+    toks, env, fill = case["toks"], case["env"], case["fill"]
+    s, e = from_us(case["s"]), from_us(case["e"])
+    S = {t[1] for t in toks if t[0] == "T"}
+    Eset = {t[1] for t in toks if t[0] == "E"}
+    name, caps = instantiate(toks, s, e, fill)
+    # the case is in the claim only when the template's own (independently built) pattern gives the fills back
+    try:
+        m = re.match(own_regex(toks, env), name)
+    except re.error:
+        m = None
+    if not m or {k: v for k, v in m.groupdict().items()} != caps or any(not re.fullmatch(env[u], fill[u]) for u in env):
+        ck.count("oracle-only/regex-outside-fragment (ambiguous, skipped)")
+        return
+    ck.count("oracle-only/regex-outside-fragment")
+    want_start = trunc(s, S)
+    want_end = None
+    if not Eset:
+        want_end = want_start
+    elif has_date(Eset, e) and e == trunc(e, Eset):
+        want_end = e
+    elif Eset <= set(TIME_KINDS) and "hour" in Eset and e == trunc(e, Eset | S):
+        c = want_start.replace(**{("microsecond" if k == "millisecond" else k):
+                                  ((e.microsecond // 1000) * 1000 if k == "millisecond" else getattr(e, k)) for k in Eset})
+        want_end = c + dt.timedelta(days=1) if c < want_start else c
+    viol = lambda what: ck.violation("regex-outside-fragment", what, case)
+    nrep = max([sum(1 for t in toks if t == ["U", u]) for u in env] + [0])
+    key = (tpl_str(toks), case["s"], json.dumps(fill, sort_keys=True))
+    try:
+        fs = FileSet(tpl_str(toks), placeholder=dict(env))
+        got = fs.get_filename((s, e), fill=dict(fill))
+        if got != name:
+            viol(f"name-mismatch: get_filename gave {got!r}, expected {name!r}")
+            return
+        d = fs.parse_filename(got)
+        if dict(d) != caps:
+            viol(f"caps-mismatch: parse_filename({got!r}) gave {dict(d)}, expected {caps} (regex {fs._filled_path!r})")
+            return
+        fs.reset_cache()
+        info = fs.get_info(got)
+    except Exception as ex:
+        viol(f"error-class: {type(ex).__name__}: {str(ex)[:80]} for the name {name!r} generated from "
+             f"{tpl_str(toks)!r} with placeholder={env} fill={fill}")
+        ck.case(key=key, kind=f"regex-outside/rep{nrep}")
+        return
+    if info.times[0] != want_start:
+        viol(f"start-mismatch: get_info({got!r}) start {info.times[0]} expected {want_start}")
+    if want_end is not None and info.times[1] != want_end:
+        viol(f"end-mismatch: get_info({got!r}) end {info.times[1]} expected {want_end}")
+    want_attrs = {t[1]: fill[t[1]] for t in toks if t[0] == "U"}
+    if {str(k): str(v) for k, v in info.attr.items()} != want_attrs:
+        viol(f"attrs-mismatch: get_info({got!r}) attrs {info.attr} expected {want_attrs}")
+    ck.case(key=key, kind=f"regex-outside/rep{nrep}",
+            sample={"template": tpl_str(toks), "placeholder": env, "fill": fill, "name": got})
+
 # ------------------------------------------------------------------ main
 TRUSTED = [
     "hand-written model Model/{Digits,Time,Template}.lean tied to FileSet.get_filename/parse_filename/get_info by the correspondence run of this check (driver drv_c02: same templates, periods, fills, names; compared: name string, capture list in order, start/end in µs, attribute dict, error class)",
@@ -1167,6 +1352,9 @@ def run_corpus_case(ck, c, use_model=True):
         return
     if c.get("op") == "calendar":
         return
+    if c.get("op") == "regex-outside":
+        regex_outside_case(ck, c)
+        return
     c = json.loads(json.dumps(c))
     run_batch(ck, [c], use_model)
 
@@ -1185,6 +1373,8 @@ def main():
         ck.exhaustive = True
         ck.notes.append("exhaustive: every day 1965-01-01..2064-12-31 through {year2}{doy}_{end_year2}{end_doy} and every "
                         "midnight through {year2}/{doy}/f{hour}-{end_hour}")
+    boundary_year2(ck, use_model)
+    regex_outside_stream(ck, ck.budget(600, 20000))
     explore(ck, ck.budget(3000, 150000), use_model)
     if ck.broken() and not ck.violations:
         explore(ck, 60000, use_model=False)
